@@ -62,6 +62,7 @@ type Program struct {
 	NInstr     int
 	guardSem   *GuardSem
 	sentinel   map[*ssa.Global]bool
+	onceLits   map[*ssa.Function]bool
 	Notes      []string
 }
 
